@@ -368,7 +368,17 @@ class SymTuple:
 
     def __getitem__(self, k):
         if isinstance(k, slice):
-            if k.step is not None:
+            if k.step == -1:
+                # xs[a:b:-1]: from a (default: last) down to b + 1 (default: first); assumes a, b inside the sequence
+                start = self.hi - 1 if k.start is None else self._abs(k.start)
+                stop = self.lo - 1 if k.stop is None else self._abs(k.stop)
+                env = self.env
+
+                def mk():
+                    ex = z3.If(start >= stop, stop, start)
+                    return _Iter(start, ex, -1, stop + 1, start + 1, lambda j: ElemRef(env, j))
+                return SymSeqView(mk, z3.If(start >= stop, start - stop, 0))
+            if k.step not in (None, 1):
                 raise EngineError("stepped slice of elements")
             lo = self.lo if k.start is None else self._abs(k.start)
             hi = self.hi if k.stop is None else self._abs(k.stop)
@@ -395,6 +405,117 @@ class SymTuple:
     def vc_iter(self):
         ex = z3.If(self.hi >= self.lo, self.hi, self.lo)
         return _Iter(self.lo, ex, 1, self.lo, self.hi, lambda k: ElemRef(self.env, k))
+
+
+class SymSeqView:
+    """a derived symbolic iterable (reversed / enumerate / zip of symbolic sequences): only usable as a loop header.
+    The loop index k stays the ABSOLUTE index of the frontier element (forward: the largest index of the tuple handed to
+    the body, backward: the smallest), so an invariant written for `for i in range(...)` fits the restructured loop."""
+
+    index_ambiguous = False
+
+    def __init__(self, mk_iter, length, index_ambiguous=False):
+        self._mk, self._len = mk_iter, length
+        self.index_ambiguous = index_ambiguous
+
+    def vc_iter(self):
+        return self._mk()
+
+    def sym_len(self):
+        return symint(self._len)
+
+    def __iter__(self):
+        raise EngineError("iteration over a derived symbolic sequence outside a rewritten loop header")
+
+    def __reversed__(self):
+        raise EngineError("reversed() of a derived symbolic sequence")
+
+
+def _seq_len(it):
+    n = it.hi - it.lo
+    return z3.If(n >= 0, n, 0)
+
+
+def sym_reversed(x):
+    if isinstance(x, SymTuple) and x._concrete() is None:
+        def mk():
+            ex = z3.If(x.hi >= x.lo, x.lo - 1, x.hi - 1)
+            return _Iter(x.hi - 1, ex, -1, x.lo, x.hi, lambda k: ElemRef(x.env, k))
+        return SymSeqView(mk, z3.If(x.hi >= x.lo, x.hi - x.lo, 0))
+    import builtins
+    return builtins.reversed(x)
+
+
+def sym_enumerate(x, start=0):
+    if hasattr(x, "vc_iter") and not (hasattr(x, "_concrete") and x._concrete() is not None):
+        def mk():
+            u = x.vc_iter()
+            st = _idx(start)
+            return _Iter(u.first, u.exit, u.step, u.lo, u.hi,
+                         lambda k: (symint(z3.simplify(st + (k - u.first) * u.step)), u.value_at(k)))
+        u0 = x.vc_iter()
+        return SymSeqView(mk, _seq_len(u0))
+    import builtins
+    return builtins.enumerate(x, start)
+
+
+def sym_zip(*xs, strict=False):
+    symbolic = [hasattr(x, "vc_iter") and not (hasattr(x, "_concrete") and x._concrete() is not None) for x in xs]
+    if not any(symbolic):
+        import builtins
+        return builtins.zip(*xs, strict=strict)
+    if not all(symbolic) or strict:
+        raise EngineError("zip of symbolic and concrete sequences")
+
+    def mk():
+        us = [x.vc_iter() for x in xs]
+        step = us[0].step
+        n = _seq_len(us[0])
+        for u in us[1:]:
+            m = _seq_len(u)
+            n = z3.If(m < n, m, n)
+        ref = next((j for j, x in enumerate(xs) if isinstance(x, SymRange)), None)
+        if ref is not None or any(u.step != step for u in us):
+            # an explicit index range among the components (or mixed directions): the loop index is that component's
+            # value; component j is at first_j + step_j * (number of iterations done)
+            ur = us[ref if ref is not None else 0]
+
+            def value_at(k):
+                cnt = (k - ur.first) * ur.step
+                return tuple(u.value_at(z3.simplify(u.first + u.step * cnt)) for u in us)
+            lo, hi = (ur.first, ur.first + n) if ur.step == 1 else (ur.first - n + 1, ur.first + 1)
+            return _Iter(ur.first, z3.simplify(ur.first + n * ur.step), ur.step, z3.simplify(lo), z3.simplify(hi), value_at)
+        # frontier component: forward -> the one that starts at the largest index, backward -> at the smallest
+        firsts = [u.first for u in us]
+        f = firsts[0]
+        for g in firsts[1:]:
+            f = z3.If(g > f, g, f) if step == 1 else z3.If(g < f, g, f)
+        f = z3.simplify(f)
+        offs = [z3.simplify(u.first - f) for u in us]
+        lo, hi = (f, f + n) if step == 1 else (f - n + 1, f + 1)
+        ex = f + n * step
+        return _Iter(f, z3.simplify(ex), step, z3.simplify(lo), z3.simplify(hi),
+                     lambda k: tuple(u.value_at(z3.simplify(k + o)) for u, o in zip(us, offs)))
+    us0 = [x.vc_iter() for x in xs]
+    n0 = _seq_len(us0[0])
+    for u in us0[1:]:
+        m = _seq_len(u)
+        n0 = z3.If(m < n0, m, n0)
+    return SymSeqView(mk, n0, index_ambiguous=True)
+
+
+def sym_tuple(x=()):
+    if isinstance(x, (SymTuple, SymSeqView)):
+        return x          # elements is already an immutable sequence view
+    import builtins
+    return builtins.tuple(x)
+
+
+def sym_list(x=()):
+    if isinstance(x, (SymTuple, SymSeqView)):
+        return x          # only read access is modelled; mutation of the copy raises through the proxy
+    import builtins
+    return builtins.list(x)
 
 
 def sym_len(x):
